@@ -151,17 +151,32 @@ func (m *c15Model) termsFor(h lntypes.Hash, snap *c15Snap) *c15Terms {
 	}
 }
 
+// c15Salt is re-seeded from the case nonce (a rapid draw) at the start of
+// every case and stepped on every pick.
+var c15Salt uint64
+
+// c15Pick is a weighted choice. rapid's integer generators are strongly
+// biased towards small values, which would hand most of the weight to the
+// first alternative; the drawn word is therefore whitened with the case
+// nonce and mixed before use. The choice is still a pure function of the
+// rapid draws of the case.
 func c15Pick(t *rapid.T, label string, weights ...int) int {
 	total := 0
 	for _, w := range weights {
 		total += w
 	}
-	x := rapid.IntRange(0, total-1).Draw(t, label)
+	x := rapid.Uint64().Draw(t, label)
+	x ^= c15Salt
+	c15Salt += 0x9e3779b97f4a7c15
+	x = (x ^ (x >> 30)) * 0xbf58476d1ce4e5b9
+	x = (x ^ (x >> 27)) * 0x94d049bb133111eb
+	x ^= x >> 31
+	r := int(x % uint64(total))
 	for i, w := range weights {
-		if x < w {
+		if r < w {
 			return i
 		}
-		x -= w
+		r -= w
 	}
 
 	return len(weights) - 1
@@ -356,7 +371,20 @@ func (m *c15Model) genPlan(t *rapid.T) {
 
 	switch target {
 	case 0: // an invoice we added
-		inv := added[rapid.IntRange(0, len(added)-1).Draw(t, "inv")]
+		pool := added
+		if c15Pick(t, "preferOpen", 85, 15) == 0 {
+			var open []*c15InvSpec
+			for _, s := range added {
+				snap := m.worlds[0].snaps[s.hash]
+				if snap != nil && snap.State == invpkg.ContractOpen {
+					open = append(open, s)
+				}
+			}
+			if len(open) > 0 {
+				pool = open
+			}
+		}
+		inv := pool[rapid.IntRange(0, len(pool)-1).Draw(t, "inv")]
 		var kind string
 		switch inv.kind {
 		case "amp":
@@ -751,6 +779,7 @@ func c15Run(t *rapid.T, tt *testing.T, st *vstats.Collector, tpl []byte,
 		now:        c15Epoch,
 	}
 	m.nonce = rapid.Uint64().Draw(t, "nonce")
+	c15Salt = m.nonce*0x9e3779b97f4a7c15 + 0x1234567
 	m.cfg = c15Cfg{
 		rejectDelta:   int32(rapid.IntRange(1, 14).Draw(t, "rejectDelta")),
 		acceptKeysend: c15Pick(t, "acceptKeysend", 25, 75) == 1,
@@ -830,10 +859,18 @@ func c15Run(t *rapid.T, tt *testing.T, st *vstats.Collector, tpl []byte,
 			wAdd = 0
 		}
 		if len(m.invs) > 0 {
-			wSettle = 7
+			wSettle = 5
+			for _, s := range m.invs {
+				snap := m.worlds[0].snaps[s.hash]
+				if snap != nil &&
+					snap.State == invpkg.ContractAccepted {
+
+					wSettle = 16
+				}
+			}
 		}
-		act := c15Pick(t, "action", wSend, wBatch, wReplay, 12, wAdd, 4,
-			wSettle, 7, 3)
+		act := c15Pick(t, "action", wSend, wBatch, wReplay, 12, wAdd, 2,
+			wSettle, 6, 3)
 		switch act {
 		case 0: // send one queued HTLC
 			i := 0
@@ -930,6 +967,20 @@ func c15Run(t *rapid.T, tt *testing.T, st *vstats.Collector, tpl []byte,
 					} else {
 						others = append(others, s)
 					}
+				}
+				var accepted []*c15InvSpec
+				for _, s := range holds {
+					snap := m.worlds[0].snaps[s.hash]
+					if snap != nil &&
+						snap.State == invpkg.ContractAccepted {
+
+						accepted = append(accepted, s)
+					}
+				}
+				if len(accepted) > 0 &&
+					c15Pick(t, "settleAccepted", 80, 20) == 0 {
+
+					holds = accepted
 				}
 				pool := holds
 				if len(holds) == 0 || (len(others) > 0 &&
@@ -1078,7 +1129,7 @@ func (m *c15Model) sendOne(t *rapid.T, s *c15Shard, replay bool) {
 		}
 	}
 
-	cancelSet := !replay && c15Pick(t, "cancelSet", 96, 4) == 1
+	cancelSet := !replay && c15Pick(t, "cancelSet", 98, 2) == 1
 	ev := &c15Event{
 		kind:    "send",
 		shards:  []*c15Shard{s},
